@@ -14,7 +14,7 @@ cp $demo $out/$(basename $demo).txt
 dpkg=./$(dirname $demo)
 [ -z "$pkgs" ] && pkgs=$dpkg
 # with change: existing tests (demo skipped)
-with_existing=$(go test -vet=off -count=1 -skip 'SeedDemo' $pkgs 2>&1 | grep -E "^(ok|FAIL|---)" | tr '\n' ';')
+with_existing=$(go test -vet=off -count=1 -skip 'SeedDemo|TestMicroTask' $pkgs 2>&1 | grep -E "^(ok|FAIL|---)" | tr '\n' ';')
 with_demo=$(go test -vet=off -count=1 -run 'SeedDemo' $dpkg 2>&1 | grep -E "^(ok|FAIL)" | head -1)
 git stash -q -- $(git diff --name-only)
 without_demo=$(go test -vet=off -count=1 -run 'SeedDemo' $dpkg 2>&1 | grep -E "^(ok|FAIL)" | head -1)
